@@ -17,6 +17,7 @@ var (
 	unionAttributeTypePrefix = "_|_"
 	objectPrefix             = "_o_"
 	objectSuffix             = "_e_"
+	objectRefPrefix          = "_r_"
 	tagPrefix                = "+"
 	userTypeHashPrefix       = "!"
 	userTypePrefix           = "_t_"
@@ -110,9 +111,14 @@ func hashObject(o *Object, ignoreFields, ignoreNames, ignoreTags bool, seen map[
 	if s, ok := seen[o]; ok {
 		return s
 	}
+	// While o is being hashed a reference back to it (recursive type) hashes
+	// to a marker that identifies o by its position in the traversal. Using
+	// the hash computed so far instead would make a recursive type collide
+	// with a type that has the attributes hashed so far in that place.
+	ref := fmt.Sprintf("%s%d", objectRefPrefix, len(seen))
+	seen[o] = &ref
 	h := objectPrefix
 	ph := &h
-	seen[o] = ph
 	for _, a := range sorted(o) {
 		*ph += attributePrefix + a.Name +
 			attributeTypePrefix + *hash(a.Attribute.Type, ignoreFields, ignoreNames, ignoreTags, seen)
@@ -120,6 +126,7 @@ func hashObject(o *Object, ignoreFields, ignoreNames, ignoreTags bool, seen map[
 			*ph += hashTags(a.Attribute.Meta)
 		}
 	}
+	seen[o] = ph
 	return ph
 }
 
